@@ -44,6 +44,7 @@ def expected_semantic(am):
             cands.setdefault((str(t["src"]), str(G.EV0 + e)), []).append(line)
             allowed[str(t["src"])].add(G.EV0 + e)
             events.add(G.EV0 + e)
+    events |= {G.EV0 + e for e in am.get("dangling", [])}
     return dict(err="err 0", states=states, cands=cands, events=show(events),
                 allowed={k: show(v) for k, v in allowed.items()})
 
